@@ -14,4 +14,5 @@ for prop in $props; do
   echo "$out" | tail -1 | cut -c1-200
 done
 git -C /repo checkout -- .
+git -C /verif checkout lean/Relic/Generated 2>/dev/null
 git -C /repo status --short | head -3
